@@ -13,6 +13,7 @@ def run(run):
     nr = machine.check_random(run, FAMILY, 1500 if quick else 20000, "MachineRand: seeded random programs")
     run.cov["random_programs"] = nr
     n += nr
+    n += env_traces(run, quick)
     run.cov["traces_validated_against_impl"] = n
     run.cov["evaluations"] = n
     run.cov["distinct_nontrivial"] = n
@@ -21,4 +22,32 @@ def run(run):
     run.assumptions += machine.ASSUMPTIONS
 
 
-replay = machine.replay
+def env_traces(run, quick):
+    """binding B: every frame creation, definition, assignment, lookup, closure creation and call of the
+    real interpreter (generated programs, the repository's own test programs, the library code they run)
+    validated by Env_Trace.tla"""
+    import random
+    from . import envtrace as et
+    from .c05 import repo_test_programs
+    rng = random.Random(run.seed + 3)
+    gen = sorted(set(machine.SOURCES))
+    gen = rng.sample(gen, min(len(gen), 1200 if quick else 12000))
+    progs = [(machine.PRELUDE + g, False) for g in gen] + [(t, True) for t in repo_test_programs()]
+    events, metas = et.record(progs)
+    stats = et.validate(run, events, metas, "Env_Trace: the environment chain as the real interpreter uses it")
+    run.cov["env_trace_events"] = len(events)
+    run.cov["env_trace_calls"] = sum(1 for e in events if e["e"] == "call")
+    run.cov["env_trace_frames"] = sum(1 for e in events if e["e"] == "frame")
+    run.cov["env_trace_unchecked"] = stats["unchecked"]
+    k0 = next(k for k, m in enumerate(metas) if m != "<library>")
+    run.sample({"env_trace": events[k0:k0 + 14], "of": metas[k0][:200]})
+    return len(progs)
+
+
+def replay(run, case):
+    if case.get("kind") == "envtrace":
+        from . import envtrace as et
+        events, metas = et.record([(case["src"], True)])
+        et.validate(run, events, metas, "Env_Trace (replay)")
+        return
+    return machine.replay(run, case)
